@@ -181,7 +181,7 @@ func concMappings(methods []string, n int) []map[string]string {
 }
 
 // RunConc is the check behind C05 and C06.
-func RunConc(prop, tier string) (int, error) {
+func RunConc(prop, tier string, extra ...func(sc *core.Scratch, ev *core.Evidence, rep *core.Reporter) (int, error)) (int, error) {
 	ev := core.NewEvidence(prop, tier, "model_checking")
 	rep := core.NewReporter(prop)
 	sc, err := core.NewScratch("conc-" + prop)
@@ -190,6 +190,17 @@ func RunConc(prop, tier string) (int, error) {
 	}
 	defer sc.Cleanup()
 	code, err := runConc(prop, tier, sc, ev, rep)
+	for _, x := range extra {
+		if err != nil || code == 2 {
+			break
+		}
+		c2, e2 := x(sc, ev, rep)
+		if e2 != nil {
+			code, err = 2, e2
+		} else if c2 > code {
+			code = c2
+		}
+	}
 	ev.Violations = rep.Count()
 	if werr := ev.Write(); werr != nil && err == nil {
 		err = werr
@@ -342,6 +353,11 @@ func runConcOn(prop, tier string, sc *core.Scratch, ev *core.Evidence, rep *core
 				if len(r.WrongArgs) > 0 {
 					witness("under concurrency a configured function received another call's arguments", r.WrongArgs)
 				}
+			}
+			if prop == "C05" && (r.Deadlocks > 0 || len(r.Stuck) > 0) {
+				// "any number of goroutines may concurrently call ...": operations that never return
+				// never reach the quiescent state the property talks about
+				witness("concurrent operations never finish (deadlock / blocked for good)", map[string]any{"schedules": r.Deadlocks, "examples": append(append([]string{}, r.DeadlockEx...), r.Stuck...)})
 			}
 			if prop == "C03" && len(r.WrongArgs) > 0 {
 				witness("a configured function received other arguments than its caller passed", r.WrongArgs)
